@@ -676,3 +676,26 @@ func init() {
 		What:   "real PacketUnderlay.readOneSegment at a UDP server without a session for the source: one 72-byte datagram that the replay cache reports (same bytes seen from another address) and that still decrypts as a new session - open request, data, ack or close request (type and lengths concrete per case, every other field arbitrary) - is dropped: nothing passed on, nothing sent, no session",
 		Bounds: "4 segment types, metadata-only datagrams", Outside: "replay cache answer fixed to 'seen' (its own law is H6.1); discovery replaced by its outcome with scripted metadata; decrypt oracle"})
 }
+
+func init() {
+	r := map[string]string{
+		"github.com/google/btree.NewG":                           "vTreeNew",
+		"(*github.com/google/btree.BTreeG[T]).Len":               "vTreeLen",
+		"(*github.com/google/btree.BTreeG[T]).ReplaceOrInsert":   "vTreeReplaceOrInsert",
+		"(*github.com/google/btree.BTreeG[T]).Min":               "vTreeMin",
+		"(*github.com/google/btree.BTreeG[T]).Max":               "vTreeMax",
+		"(*github.com/google/btree.BTreeG[T]).DeleteMin":         "vTreeDeleteMin",
+		"(*github.com/google/btree.BTreeG[T]).Clear":             "vTreeClear",
+		"(*github.com/google/btree.BTreeG[T]).Ascend":            "vTreeAscend",
+		"(*github.com/enfein/mieru/v3/pkg/protocol.Session).output": "vStubOutput",
+		"github.com/enfein/mieru/v3/pkg/metrics.RegisterMetric":  "vStubRegisterMetric",
+		"io.ReadFull": "vStubReadFullLen",
+		"(*github.com/enfein/mieru/v3/pkg/replay.ReplayCache).IsDuplicate": "vStubIsDuplicateAny",
+		"github.com/enfein/mieru/v3/pkg/protocol.newPadding":                  "vStubNewPaddingAnyLen",
+		"github.com/enfein/mieru/v3/pkg/protocol.buildRecommendedPaddingOpts": "vStubRecommendedOpts",
+	}
+	reg("C01", HarnessDef{ID: "H1.4", Tier: "thorough", ReplayPatches: []SrcPatch{{File: "pkg/protocol/metadata.go", Old: "time.Now()", New: "vNow()", All: true}},
+		Spec: HarnessSpec{Name: "vH_C01_stray_segment_for_closed_session", Pkg: "pkg/protocol", LoopBound: 8, LoopBounds: map[string]int{"closeWithError": 1001, "ReadAtLeast": 3, "RunEventLoop": 3}, ClockMin: 1900000000, ClockMax: 1900000001, TimeoutS: 300, Par: 8, IgnoreGo: true, Redirects: r},
+		What:   "demultiplexing on one TCP connection: the real StreamUnderlay.RunEventLoop (server) receives one more data segment for a session that is closed but still registered (scripted metadata: type, id and lengths concrete, the rest arbitrary), then the stream ends: the segment is dropped and the loop reads on - it ends with the stream (typed NETWORK error), not because of the stray segment, and nothing is written; sibling sessions on the connection are not torn down",
+		Bounds: "one stray payload-less data segment, 3 loop iterations", Outside: "decrypt oracle with scripted first metadata; io.ReadFull length-only; padding contract stub; the clean-up ticker does not fire during the call; goroutines of sessions not started"})
+}
